@@ -13,7 +13,7 @@ from __future__ import annotations
 
 import http.client
 
-from kit.h import P, run, mark, known, concretize
+from kit.h import P, run, mark, known, concretize, decode_point
 from kit import net as N
 from kit import env as E
 from kit.fixtures import FIXTURES, BY_NAME
@@ -149,15 +149,11 @@ def _zstd_frame_boundary(fx, c):
 
 def _cut_body(c, seg, dc, rk, m):
     fx = BY_NAME[P.fixture]
-    c = concretize(c)
-    seg = concretize(seg)
-    dc = concretize(dc)
-    rk = concretize(rk)
     body = fx.body[:c]
     return _scenario(fx, body, seg, dc, rk, m, must_detect_cut(fx, c, dc), "cut at %d/%d" % (c, len(fx.body)))
 
 
-def _scenario(fx, body, seg, dc, rk, m, must_raise, what, checksummed_only=False):
+def _scenario(fx, body, seg, dc, rk, m, must_raise, what, checksummed_only=False, corrupt=False):
     exp = fx.expected(dc)
     peer = CutPeer(fx.head, body, seg)
     netw = N.install(peer)
@@ -172,7 +168,7 @@ def _scenario(fx, body, seg, dc, rk, m, must_raise, what, checksummed_only=False
         def first():
             return pool.urlopen("GET", "/", preload_content=preload, decode_content=dc, retries=False)
         try:
-            resp = first() if preload else N._untraced(first)()
+            resp = first()
         except HTTPError as e:
             raised = e
         if resp is not None and not preload:
@@ -204,7 +200,7 @@ def _scenario(fx, body, seg, dc, rk, m, must_raise, what, checksummed_only=False
                     return _fail("%s: %s ended normally with wrong bytes %r" % (what, RNAMES[rk], got[:40]))
         # bytes delivered before an error / the end are a prefix of the expected bytes (cuts only: a corrupted stream may
         # decode to different bytes before the decoder notices)
-        if pieces and not checksummed_only and P.get("prefix_check", True):
+        if pieces and not checksummed_only and not corrupt and P.get("prefix_check", True):
             got = b"".join(pieces)
             if exp[:len(got)] != got:
                 return _fail("%s: delivered %r which is not a prefix of %r" % (what, got, exp))
@@ -235,23 +231,31 @@ def _scenario(fx, body, seg, dc, rk, m, must_raise, what, checksummed_only=False
         E.uninstall_clock()
 
 
-def c13_cut(c: int, seg: int, dc: bool, rk: int, m: int) -> bool:
+def _rkm(part):
+    return [(rk, m) for rk in part["rks"] for m in (range(1, part["mmax"] + 1) if rk in (1, 2, 3, 4, 5) else [1])]
+
+
+def cut_dims(part):
+    return [list(range(part["cmin"], part["cmax"] + 1)), part["segs"], part["dcs"], _rkm(part)]
+
+
+def _cut_point(idx):
+    c, seg, dc, (rk, m) = decode_point(idx, cut_dims(P))
+    if rk == R_ITER and not dc:
+        return True
+    return N._untraced(_cut_body)(c, seg, dc, rk, m)
+
+
+def c13_cut(idx: int) -> bool:
     """
-    pre: P.cmin <= c <= P.cmax
-    pre: seg in P.segs and dc in P.dcs and rk in P.rks and 1 <= m <= P.mmax
-    pre: (dc or rk != 6) and (m == 1 or rk in (1, 2, 3, 4, 5))
+    pre: 0 <= idx < P.n
     post: _
     """
-    return run(_cut_body, c, seg, dc, rk, m)
+    return run(_cut_point, idx)
 
 
 def _corrupt_body(i, v, seg, dc, rk, m):
     fx = BY_NAME[P.fixture]
-    i = concretize(i)
-    v = concretize(v)
-    seg = concretize(seg)
-    dc = concretize(dc)
-    rk = concretize(rk)
     pos = P.positions[i]
     old = fx.body[pos]
     new = P.vals[v]
@@ -264,9 +268,45 @@ def _corrupt_body(i, v, seg, dc, rk, m):
         # a chunk-size line that is no longer hex digits (optionally followed by ';ext') is malformed
         hexd = b"0123456789abcdefABCDEF"
         must = new not in hexd and new not in b"; \t" and not _in_ext(fx.body, pos)
-    checksummed = (not in_size_line) and dc and fx.coding in ("gzip", "deflate")
-    return _scenario(fx, body, seg, dc, rk, m, must, "byte %d: %#x -> %#x" % (pos, old, new), checksummed_only=True if not in_size_line else False) \
-        if not in_size_line else _scenario_sizeline(fx, body, seg, dc, rk, m, must, "size-line byte %d: %#x -> %#x" % (pos, old, new))
+    if in_size_line:
+        return _scenario_sizeline(fx, body, seg, dc, rk, m, must, "size-line byte %d: %#x -> %#x" % (pos, old, new))
+    # corrupted compressed stream: an independent decoder (plain zlib / zstandard, one shot) decides whether the stream is
+    # UNDECODABLE (must raise) or still decodes to something / is merely incomplete (either outcome; zstd incomplete must raise)
+    must = dc and ref_undecodable(fx.coding, body)
+    return _scenario(fx, body, seg, dc, rk, m, must, "byte %d: %#x -> %#x" % (pos, old, new), checksummed_only=False, corrupt=True)
+
+
+def ref_undecodable(coding, raw):
+    import zlib
+    if coding in ("gzip", "gzip2", "gzip_garbage"):
+        d = zlib.decompressobj(16 + zlib.MAX_WBITS)
+        try:
+            d.decompress(raw)
+            return False           # first member decodes (or is incomplete); later members / garbage are tolerated by design
+        except zlib.error:
+            return True
+    if coding in ("deflate", "rawdeflate"):
+        for wbits in (zlib.MAX_WBITS, -zlib.MAX_WBITS):
+            try:
+                zlib.decompressobj(wbits).decompress(raw)
+                return False
+            except zlib.error:
+                continue
+        return True
+    if coding in ("zstd", "zstd2"):
+        import zstandard
+        data = raw
+        try:
+            while data:
+                o = zstandard.ZstdDecompressor().decompressobj()
+                o.decompress(data)
+                if not o.eof:
+                    return True    # incomplete
+                data = o.unused_data
+            return False
+        except zstandard.ZstdError:
+            return True
+    return False
 
 
 def _in_ext(body, pos):
@@ -279,23 +319,29 @@ def _scenario_sizeline(fx, body, seg, dc, rk, m, must, what):
     return _scenario(fx, body, seg, dc, rk, m, must, what)
 
 
-def c13_corrupt(i: int, v: int, seg: int, dc: bool, rk: int, m: int) -> bool:
+def corrupt_dims(part):
+    return [list(range(len(part["positions"]))), list(range(len(part["vals"]))), part["segs"], part["dcs"], _rkm(part)]
+
+
+def _corrupt_point(idx):
+    i, v, seg, dc, (rk, m) = decode_point(idx, corrupt_dims(P))
+    if rk == R_ITER and not dc:
+        return True
+    return N._untraced(_corrupt_body)(i, v, seg, dc, rk, m)
+
+
+def c13_corrupt(idx: int) -> bool:
     """
-    pre: 0 <= i < len(P.positions) and 0 <= v < len(P.vals)
-    pre: seg in P.segs and dc in P.dcs and rk in P.rks and 1 <= m <= P.mmax
-    pre: (dc or rk != 6) and (m == 1 or rk in (1, 2, 3, 4, 5))
+    pre: 0 <= idx < P.n
     post: _
     """
-    return run(_corrupt_body, i, v, seg, dc, rk, m)
+    return run(_corrupt_point, idx)
 
 
 # ---- Content-Length header sanity ---------------------------------------------------------------------------------
 
 def _length_body(form, n, mm, chunked, status_i, head):
     from urllib3.connection import HTTPConnection
-    form = concretize(form)
-    n = concretize(n)
-    mm = concretize(mm)
     status = [200, 204, 304, 206][status_i]
     payload = b"0123456789"[:n] if n <= 10 else b"0123456789"
     texts = {0: "%d" % n, 1: "%d, %d" % (n, n), 2: "%d, %d" % (n, mm), 3: "-%d" % (n + 1), 4: "abc", 5: None, 6: "%d,%d,%d" % (n, n, mm)}
@@ -329,7 +375,7 @@ def _length_body(form, n, mm, chunked, status_i, head):
             return True
         # with Transfer-Encoding: chunked http.client's own chunk reader decides (it reads a chunked body even on 204/304):
         # outside urllib3, not asserted
-        bodyless = (head or status in (204, 304)) and not chunked
+        bodyless = head or (status in (204, 304) and not chunked)
         if conflicting and not chunked:
             if not isinstance(raised, InvalidHeader):
                 return _fail("Content-Length %r accepted (raised=%r)" % (cl, raised))
@@ -360,20 +406,33 @@ def _length_body(form, n, mm, chunked, status_i, head):
         N.uninstall()
 
 
-def c13_length(form: int, n: int, mm: int, chunked: bool, status_i: int, head: bool) -> bool:
+def length_dims(part):
+    r = list(range(part["nmax"] + 1))
+    return [list(range(7)), r, r, [False, True], [0, 1, 2, 3], [False, True]]
+
+
+def _length_point(idx):
+    return N._untraced(_length_body)(*decode_point(idx, length_dims(P)))
+
+
+def c13_length(idx: int) -> bool:
     """
-    pre: 0 <= form <= 6 and 0 <= n <= P.nmax and 0 <= mm <= P.nmax and 0 <= status_i <= 3
+    pre: 0 <= idx < P.n
     post: _
     """
-    return run(_length_body, form, n, mm, chunked, status_i, head)
+    return run(_length_point, idx)
 
 
-QUICK_FIX = ["cl/identity/5", "chunked/identity/5/1-2", "cl/gzip/17", "chunked/zstd2/17/3-11", "close/zstd/17", "chunked/identity/0"]
+DIMS = {"c13_cut": cut_dims, "c13_corrupt": corrupt_dims, "c13_length": length_dims}
+
+
+QUICK_FIX = ["cl/identity/5", "chunked/identity/5/1-2", "cl/gzip/17", "chunked/gzip/17/5", "chunked/zstd2/17/3-11", "close/zstd/17",
+             "close/deflate/17", "cl/zstd2/17", "cl/identity/0", "chunked/identity/0", "cl/gzip2/17", "cl/deflate,gzip/17"]
 
 
 def JOBS(tier):
     quick = tier == "quick"
-    t = 150 if quick else 900
+    t = 170 if quick else 900
     jobs = []
     for fx in FIXTURES:
         if quick and fx.name not in QUICK_FIX:
@@ -383,36 +442,27 @@ def JOBS(tier):
         rks = [R_READ, R_LOOP_READ, R_LOOP_READ1, R_LOOP_READINTO, R_STREAM, R_ITER, R_READ1_ALL, R_PRELOAD, R_DATA, R_DRAIN] + \
               ([R_READ_CHUNKED] if chunked else [])
         dcs = [True, False] if fx.coding != "identity" else [True]
-        segs = [1] if quick else [1, W + 1]
-        if quick:
-            dcs = dcs[:1]
-        # partition the cut range over processes
-        step = max(1, (W + 1) // (3 if quick else 6) + 1)
+        segs = [1, W + 1]
+        nparts = 1 if quick else 2
+        step = (W + 1 + nparts - 1) // nparts
         lo = 0
         while lo <= W:
             hi = min(W, lo + step - 1)
-            for grp in ([rks[:5], rks[5:]] if quick else [[r] for r in rks]):
-                jobs.append({"func": "c13_cut", "timeout": t, "path_timeout": 60, "samples": 1,
-                             "part": {"fixture": fx.name, "cmin": lo, "cmax": hi, "segs": segs, "dcs": dcs, "rks": grp,
-                                      "mmax": 2}})
+            jobs.append({"func": "c13_cut", "timeout": t, "path_timeout": 60, "samples": 1,
+                         "part": {"fixture": fx.name, "cmin": lo, "cmax": hi, "segs": segs, "dcs": dcs, "rks": rks, "mmax": 2 if quick else 3}})
             lo = hi + 1
-        # corruptions
-        if chunked and (not quick or fx.name == "chunked/identity/5/1-2"):
+        if chunked:
             pos = _size_line_positions(fx.body)
             vals = [ord("g"), ord("-"), ord(" "), 0, ord("f"), ord("1"), 10, ord(";")]
             jobs.append({"func": "c13_corrupt", "timeout": t, "path_timeout": 60, "samples": 1,
-                         "part": {"fixture": fx.name, "kind": "chunkline", "positions": pos if not quick else pos[:6],
-                                  "vals": vals if not quick else vals[:5], "segs": segs, "dcs": dcs[:1],
-                                  "rks": rks if not quick else [R_READ, R_LOOP_READ, R_STREAM, R_READ_CHUNKED, R_PRELOAD, R_LOOP_READ1],
-                                  "mmax": 2}})
-        if fx.coding != "identity" and fx.framing == "cl" and (not quick or fx.coding in ("gzip",)):
+                         "part": {"fixture": fx.name, "kind": "chunkline", "positions": pos if not quick else pos[:8],
+                                  "vals": vals, "segs": segs, "dcs": dcs[:1], "rks": rks, "mmax": 2}})
+        if fx.coding != "identity" and fx.framing == "cl":
             R = len(fx.raw)
-            pos = list(range(R)) if not quick else sorted(set(list(range(0, R, 3)) + [R - 1, R - 5]))
-            for grp in ([rks] if quick else [[r] for r in rks]):
-                jobs.append({"func": "c13_corrupt", "timeout": t, "path_timeout": 60, "samples": 1,
-                             "part": {"fixture": fx.name, "kind": "stream", "positions": pos, "vals": [0x00, 0xFF, 0x41] if not quick else [0xFF],
-                                      "segs": segs, "dcs": [True],
-                                      "rks": grp if not quick else [R_READ, R_LOOP_READ, R_STREAM, R_PRELOAD, R_LOOP_READ1], "mmax": 2}})
+            pos = list(range(R)) if not quick else sorted(set(list(range(0, R, 2)) + [R - 1]))
+            jobs.append({"func": "c13_corrupt", "timeout": t, "path_timeout": 60, "samples": 1,
+                         "part": {"fixture": fx.name, "kind": "stream", "positions": pos, "vals": [0x00, 0xFF, 0x41] if not quick else [0xFF, 0x41],
+                                  "segs": segs, "dcs": [True], "rks": rks, "mmax": 2}})
     jobs.append({"func": "c13_length", "timeout": t, "part": {"nmax": 3 if quick else 12}})
     return jobs
 
@@ -437,10 +487,11 @@ def _size_line_positions(body):
 
 
 EVIDENCE = {
-    "bounds": {"quick": "6 fixtures (identity/gzip/zstd x Content-Length/chunked/close-delimited, 0-17 byte payloads): EVERY cut "
-                        "position of the body wire x byte-wise segmentation x 10-11 read patterns (m<=2) incl. preload/.data/drain, "
-                        "decoding on, each broken response followed by a second request on the same pool; single-byte corruption of "
-                        "chunk-size lines (5 values x 6 positions) and of a gzip stream; Content-Length header forms with symbolic n, m <= 3",
+    "bounds": {"quick": "12 fixtures (identity/gzip/2-member gzip/zlib/zstd/2-frame zstd/stack x Content-Length/chunked/close-delimited, 0-17 byte "
+                        "payloads): EVERY cut position of the body wire x segmentation {1, whole} x 10-11 read patterns (m<=2) incl. "
+                        "preload/.data/drain x decode on/off, each broken response followed by a second request on the same pool; single-byte "
+                        "corruption of chunk-size lines (8 values x 8 positions) and of every other byte of each coded Content-Length stream; "
+                        "Content-Length header forms with n, m <= 3; every point one solver model of a single index variable",
                "thorough": "all 31 fixtures, every cut, segmentations {1,whole}, decode on/off, all size-line positions x 8 values, every "
                            "stream byte x {0x00,0xFF,0x41}, header integers <= 12"},
     "outside": ["payloads > 40 bytes", "the codecs (C)", "cuts inside the status line / header block (C01, C03 cover those faults)",
